@@ -750,6 +750,9 @@ func (w *Proxy) checkMutated(r *peers.ReqRec, fm string) {
 		if !bytes.Equal(got.Body, wantBody) {
 			s.Violate("C01", "mutated_request_changed", "req#%d attempt %d (filter: %s): body is %dB %q..., the modified content is %dB", r.Idx, ai, fm, len(got.Body), head(got.Body, 24), len(wantBody))
 		}
+		if !bytes.Equal(got.Fixed, sent.Fixed) {
+			s.Violate("C01", "mutated_request_changed", "req#%d attempt %d (filter: %s): the fixed fields (%s) changed in the re-encoded frame: % x -> % x", r.Idx, ai, fm, fixedNames(r.Proto), sent.Fixed, got.Fixed)
+		}
 		if got.Class != sent.Class || got.Timeout != sent.Timeout || got.Oneway != sent.Oneway {
 			s.Violate("C01", "mutated_request_changed", "req#%d attempt %d: class/timeout/type changed (%q %d %v -> %q %d %v)", r.Idx, ai, sent.Class, sent.Timeout, sent.Oneway, got.Class, got.Timeout, got.Oneway)
 		}
@@ -786,6 +789,12 @@ func (w *Proxy) checkMutated(r *peers.ReqRec, fm string) {
 				if d == "" && !bytes.Equal(rep.Parsed.Body, src.Body) {
 					d = fmt.Sprintf("response body changed (%dB -> %dB)", len(src.Body), len(rep.Parsed.Body))
 				}
+				if d == "" && !bytes.Equal(rep.Parsed.Fixed, src.Fixed) {
+					d = fmt.Sprintf("fixed fields (%s) changed: % x -> % x", fixedNames(r.Proto), src.Fixed, rep.Parsed.Fixed)
+				}
+				if d == "" && (rep.Parsed.Class != src.Class || rep.Parsed.Status != src.Status) {
+					d = fmt.Sprintf("class/status changed (%q %d -> %q %d)", src.Class, src.Status, rep.Parsed.Class, rep.Parsed.Status)
+				}
 				if d == "" {
 					matched = true
 				} else if first == "" {
@@ -797,6 +806,13 @@ func (w *Proxy) checkMutated(r *peers.ReqRec, fm string) {
 			s.Violate("C01", "mutated_response_changed", "req#%d: the delivered response is none of the upstream's %d replies plus the filter's header: %s", r.Idx, n, first)
 		}
 	}
+}
+
+func fixedNames(proto string) string {
+	if proto == "boltv2" {
+		return "ver1 ver2 codec switch"
+	}
+	return "version codec"
 }
 
 func head(b []byte, n int) []byte {
